@@ -458,6 +458,64 @@ func init() {
 			c05Judge(c, "md", enum.Spell(d, nm, enum.Canonical), enum.Build(d, nm), model.DefaultFmt, 0)
 			c05Judge(c, "md", enum.Spell(d, nm, enum.Canonical), enum.Build(d, nm), model.DefaultFmt, 2*r-1)
 		}
+		// the size sweep (enum/size.go) and the fingerprint twins (enum/twins.go): every row of a deep or wide tree carries
+		// the right Row, Path, Level and HasChild; the walk stops where the callback says
+		upTo, far, deepTo, deepFar := 300, 1030, 130, 260
+		if c.Thorough() {
+			upTo, far, deepTo, deepFar = 1100, 2100, 300, 520
+		}
+		c.Bound("size_sweep_width_every_integer_up_to", fmt.Sprint(upTo))
+		c.Bound("size_sweep_depth_every_integer_up_to", fmt.Sprint(deepTo))
+		c.Bound("size_sweep_depth_power_of_two_neighbours_up_to", fmt.Sprint(deepFar))
+		sweep := func(s enum.SizeShape) {
+			if !c.Take() || c.Expired() {
+				return
+			}
+			f := enum.Build(s.D, s.Names)
+			doc := enum.Spell(s.D, s.Names, enum.Canonical)
+			c.StateN(1)
+			c.Nontrivial()
+			c.Inc("size_sweep_cases")
+			total := model.Merge(f).Size()
+			c05Judge(c, "md", doc, f, model.DefaultFmt, 0)
+			if len(f) == 1 {
+				c05Judge(c, []string{"root", "iter", "root-alias", "iter-alias"}[s.Size%4], doc, f, fmtTuples[1], 0)
+				c05Judge(c, []string{"iter", "root"}[s.Size%2], doc, f, model.DefaultFmt, total-s.Size%3)
+			} else {
+				c05Judge(c, "md-alias", doc, f, fmtTuples[1], total-1)
+			}
+		}
+		enum.DeepShapes(enum.Sizes(deepTo, deepFar), sweep)
+		enum.WideShapes(enum.Sizes(upTo, far), sweep)
+		enum.TwinShapes(sweep)
+		// line ends: every sequence of up to four lines over an alphabet with carriage returns at the end of and inside
+		// names, LF-joined, with and without a final newline: the rows handed to the callback are the lines of the text
+		// output of the same document, and both calls agree on whether the document is acceptable
+		{
+			alpha := []string{"- a", "  - b", "- a\r", "  - b\r", "- a\r\r", "  - b \r", "\r", "  - a\rb", "    - c\r\r"}
+			for L := 1; L <= 4 && !c.Expired(); L++ {
+				enum.Tuples(L, len(alpha), func(t []int) {
+					if !c.Take() || c.Expired() {
+						return
+					}
+					for _, final := range []string{"\n", "", "\r\n"} {
+						doc := strings.Join(enum.Pick(alpha, t), "\n") + final
+						c.StateN(1)
+						c.Inc("line_end_documents")
+						out, oerr, _ := sut.Output(doc)
+						rows, werr, _, pan := c05Run("md", doc, nil, model.DefaultFmt, 0)
+						c.Eval()
+						var sb strings.Builder
+						for _, r := range rows {
+							sb.WriteString(r.Row + "\n")
+						}
+						if pan != "" || (oerr == nil) != (werr == nil) || (oerr == nil && sb.String() != out) {
+							c.Violation("C05|rows-differ-from-text-output|line-ends", fmt.Sprintf("doc=%q: walk err=%v panic=%q rows=%q; text output err=%v %q", doc, werr, pan, sb.String(), oerr, out), len(doc), c05Replay{"c05-lines", doc, model.DefaultFmt, "md", 0, "", ""})
+						}
+					}
+				})
+			}
+		}
 		// text output lines == rows (same options), on a hostile-name slice
 		for n := 1; n <= 3; n++ {
 			enum.DepthSeqs(n, func(d []int) {
@@ -487,6 +545,20 @@ func init() {
 				})
 			})
 		}
+	}
+	replayers["c05-lines"] = func(raw json.RawMessage) bool {
+		var r c05Replay
+		if json.Unmarshal(raw, &r) != nil {
+			return false
+		}
+		out, oerr, _ := sut.Output(r.Doc)
+		rows, werr, _, pan := c05Run("md", r.Doc, nil, model.DefaultFmt, 0)
+		var sb strings.Builder
+		for _, x := range rows {
+			sb.WriteString(x.Row + "\n")
+		}
+		fmt.Printf("doc=%q\nwalk: err=%v panic=%q rows=%q\ntext: err=%v %q\n", r.Doc, werr, pan, sb.String(), oerr, out)
+		return pan != "" || (oerr == nil) != (werr == nil) || (oerr == nil && sb.String() != out)
 	}
 	replayers["c05"] = func(raw json.RawMessage) bool {
 		var r c05Replay
